@@ -30,3 +30,8 @@ claimed["C05"] = dict(engine="engine-I", category="model_checking",
   text="every alignment of <=7 (thorough 9) columns over the five column kinds (match, mismatch, insertion, deletion, gap/gap) through `variants` and, without gap/gap, through `sam variants`; ins:/del: records compared with a model in degapped reference coordinates; and, oracle-free, the whole mutation list must not change when gap/gap columns are removed; all width-5 patterns replayed through the real binary",
   note="trusted: indel model in harness/c05.go; small-scope argument: the scan keeps only run-open flags and counters, all of whose transitions occur within 7 columns",
   design_ref="DESIGN.md 3 (C05)")
+claimed["C04"] = dict(engine="engine-I", category="model_checking",
+  technique="bounded-exhaustive input enumeration on the real entry point vs. set-disjointness model and independent genetic code",
+  text="codon level: every (reference codon in 64) x (query codon in 15^3, thorough 17^3) x strand x annotation format; layout level: 11 annotation layouts (forward/reverse/join/complement(join)/join(complement)/overlapping/unnamed GFF CDS ...) x every single and double substitution over ACGTRN- on an 18-base genome x every 1-2-base indel with every single substitution x --append-snps on/off; every mentioned position and every aa record is judged for soundness and completeness; all single substitutions replayed through the real binary",
+  note="trusted: varModel in harness/ref_variants.go (NCBI table 1, IUPAC sets); the annotation renderers in harness/gen_anno.go; translation of codons containing '-'/'?' treated as undefined",
+  design_ref="DESIGN.md 3 (C04)")
